@@ -1,66 +1,152 @@
-"""Source-regenerated tie for the scalar coordinate functions (C07, C13).
+"""Source-regenerated ties (C07, C13: scalar coordinate functions; C17: longitude_continuity; C11:
+partition_by_sum).
 
-On every run the Python source of check_region, get_region, pad_region, spacing_to_size and
-line_coordinates is read from the checkout under test, serialised into PyLite terms
-(coq/theories/Lib/PyLite.v) by harness/translate_pylite.py, and coqc re-proves - for ALL arguments -
-that running the serialised source gives what the hand-written model (Model/Coordinates.v) gives
-(theorems in harness/pylite_coordinates.v.tmpl).  A source change that alters the behaviour of one of
-these functions breaks its theorem; so can a harmless rewrite (then the check reports the broken
-obligation with `no-failing-input-found` after the correspondence search found nothing)."""
+On every run the Python source of the tied functions is read from the checkout under test, serialised
+into PyLite terms (coq/theories/Lib/PyLite.v) by harness/translate_pylite.py, and coqc re-proves - for
+ALL arguments - that running the serialised source gives what the hand-written model gives (theorems
+in harness/pylite_*.v.tmpl).  A source change that alters the behaviour of one of these functions
+breaks its theorem; so can a harmless rewrite (then the check reports the broken obligation with
+`no-failing-input-found` after the correspondence search found nothing)."""
 import os
 import re
 import subprocess
+import time
 from . import core, translate_pylite
 
-FUNCS = ["check_region", "get_region", "pad_region", "spacing_to_size", "line_coordinates"]
-THEOREMS = ["src_check_region_eq", "src_get_region_eq", "src_pad_region_scalar_eq", "src_pad_region_pair_eq",
-            "src_spacing_to_size_eq", "src_line_coordinates_eq"]
 HEAD = """From Coq Require Import QArith Qround Qabs ZArith List Bool String Lia Lqa.
 From Verde Require Import Lib.QExtra Model.Coordinates Lib.PyLite.
+%s
 Import ListNotations.
 Open Scope string_scope.
 
 """
 
+SECTION = re.compile(r"^\(\* ---------- (.*?) ---------- \*\)\s*$", re.M)
 
-def coord_obligations():
-    """returns list of (name, ok, detail)"""
-    d = os.path.join(core.BUILD, "PyLite_%d" % os.getpid())
-    os.makedirs(d, exist_ok=True)
-    path = os.path.join(d, "CoordSrc.v")
-    try:
-        defs = translate_pylite.translate(os.path.join(core.REPO, "verde", "coordinates.py"), FUNCS)
-    except translate_pylite.Unsupported as exc:
-        return [(t, False, "translator failed closed: %s" % exc) for t in THEOREMS]
-    tmpl = open(os.path.join(os.path.dirname(__file__), "pylite_coordinates.v.tmpl")).read()
-    with open(path, "w") as f:
-        f.write(HEAD + "\n".join(defs[n] for n in FUNCS) + "\n" + tmpl)
+
+def _compile(path, d):
     p = subprocess.run(["timeout", "600", "coqc", "-R", os.path.join(core.COQ, "theories"), "Verde", "-w", "-all", path],
                        stdout=subprocess.PIPE, stderr=subprocess.STDOUT, text=True, cwd=d)
-    out = p.stdout
-    res = []
-    if p.returncode == 0:
-        closed = out.count("Closed under the global context")
-        for t in THEOREMS:
-            res.append((t, True, "re-proved against the current source (%d/%d closed under the global context)" % (closed, len(THEOREMS))))
-    else:
-        # find the first theorem whose proof failed: everything before the error line compiled
-        m = re.search(r'line (\d+), characters', out)
-        line = int(m.group(1)) if m else 0
-        src = open(path).read().splitlines()
-        failed_at = None
-        for i, l in enumerate(src[:line][::-1]):
-            mm = re.match(r"\s*(?:Theorem|Lemma)\s+(\w+)", l)
-            if mm:
-                failed_at = mm.group(1)
+    return p.returncode, p.stdout
+
+
+def _failing_theorem(path, out):
+    m = re.search(r'line (\d+), characters', out)
+    line = int(m.group(1)) if m else 0
+    src = open(path).read().splitlines()
+    for l in src[:line][::-1]:
+        mm = re.match(r"\s*(?:Theorem|Lemma)\s+(\w+)", l)
+        if mm:
+            return mm.group(1), line
+    return None, line
+
+
+def tie(tag, module_path, funcs, tmpl_name, theorems, imports=""):
+    """Generate build/PyLite_<pid>/<tag>.v from the current source and the template, compile it, and return
+    [(theorem, ok, detail)].  The template is a sequence of sections introduced by
+    `(* ---------- title ---------- *)`; when a proof fails, the section containing it is dropped and the
+    file recompiled, so that every theorem is judged on its own (a theorem that needs a dropped one fails
+    too)."""
+    d = os.path.join(core.BUILD, "PyLite_%d" % os.getpid())
+    os.makedirs(d, exist_ok=True)
+    path = os.path.join(d, tag + ".v")
+    defs = {}
+    untranslated = {}
+    for fn in funcs:
+        try:
+            defs.update(translate_pylite.translate(os.path.join(core.REPO, module_path), [fn]))
+        except translate_pylite.Unsupported as exc:
+            untranslated[fn] = str(exc)      # its theorems (and those that use it) will fail to compile
+        except (OSError, SyntaxError) as exc:
+            return [(t, False, "cannot read the source: %s" % exc) for t in theorems]
+    tmpl = open(os.path.join(os.path.dirname(__file__), tmpl_name)).read()
+    # split the template into sections
+    pos = [m.start() for m in SECTION.finditer(tmpl)] + [len(tmpl)]
+    sections = [tmpl[:pos[0]]] + [tmpl[pos[i]:pos[i + 1]] for i in range(len(pos) - 1)]
+    head = HEAD % imports + "\n".join(defs[n] for n in funcs if n in defs) + "\n"
+    failed = {}
+    t0 = time.time()
+    for _ in range(len(sections) + 1):
+        with open(path, "w") as f:
+            f.write(head + "".join(sections))
+        rc, out = _compile(path, d)
+        if rc == 0:
+            break
+        name, line = _failing_theorem(path, out)
+        # locate the section that contains the failing line
+        at = head.count("\n")
+        hit = None
+        for i, sec in enumerate(sections):
+            n = sec.count("\n")
+            if at < line <= at + n:
+                hit = i
                 break
-        seen_fail = False
-        for t in THEOREMS:
-            if t == failed_at:
-                seen_fail = True
-            ok = not seen_fail and failed_at is not None
-            res.append((t, ok, "proved" if ok else "NOT re-proved: coqc failed in %s: %s" % (failed_at, out[-600:])))
+            at += n
+        if hit is None or not sections[hit]:
+            for t in theorems:
+                failed.setdefault(t, "coqc failed outside the template sections: " + out[-500:])
+            break
+        why = "".join("translator failed closed on %s: %s; " % (f, m) for f, m in untranslated.items()
+                      if "src_" + f in sections[hit])
+        for t in re.findall(r"^\s*Theorem\s+(\w+)", sections[hit], re.M):
+            failed.setdefault(t, "NOT re-proved: %scoqc failed in %s: %s" % (why, name, out[-500:]))
+        sections[hit] = ""
+    secs = time.time() - t0
+    closed = out.count("Closed under the global context") if rc == 0 else 0
+    res = []
+    for t in theorems:
+        if t in failed:
+            res.append((t, False, failed[t]))
+        elif rc != 0:
+            res.append((t, False, "NOT re-proved: " + out[-500:]))
+        else:
+            res.append((t, True, "re-proved against the current source (%d closed under the global context; %.1f s)" % (closed, secs)))
     for fn in os.listdir(d):
         os.unlink(os.path.join(d, fn))
     os.rmdir(d)
     return res
+
+
+COORD_FUNCS = ["check_region", "get_region", "pad_region", "spacing_to_size", "line_coordinates", "shape_to_spacing"]
+COORD_THEOREMS = ["src_check_region_eq", "src_get_region_eq", "src_pad_region_scalar_eq", "src_pad_region_pair_eq",
+                  "src_spacing_to_size_eq", "src_line_coordinates_eq", "src_shape_to_spacing_eq"]
+
+
+def coord_obligations():
+    """returns list of (name, ok, detail)"""
+    return tie("CoordSrc", os.path.join("verde", "coordinates.py"), COORD_FUNCS, "pylite_coordinates.v.tmpl",
+               COORD_THEOREMS)
+
+
+LON_FUNCS = ["_check_geographic_region", "_check_geographic_coordinates", "longitude_continuity"]
+LON_THEOREMS = ["src_check_geographic_region_eq", "src_longitude_continuity_region_eq",
+                "src_check_geographic_coordinates_eq", "src_longitude_continuity_coords_eq"]
+LON_IMPORTS = "From Coq Require Import ZifyBool.\nFrom Verde Require Import Model.Longitude Proofs.PyLiteBridge."
+
+
+def lon_obligations():
+    return tie("LonSrc", os.path.join("verde", "coordinates.py"), LON_FUNCS, "pylite_longitude.v.tmpl",
+               LON_THEOREMS, LON_IMPORTS)
+
+
+UTILS_FUNCS = ["partition_by_sum"]
+UTILS_THEOREMS = ["src_partition_by_sum_eq"]
+UTILS_IMPORTS = ("From Coq Require Import ZifyBool.\n"
+                 "From Verde Require Import Model.CrossVal Proofs.CrossValProofs Proofs.PyLiteBridge.")
+
+
+def utils_obligations():
+    return tie("UtilsSrc", os.path.join("verde", "utils.py"), UTILS_FUNCS, "pylite_utils.v.tmpl",
+               UTILS_THEOREMS, UTILS_IMPORTS)
+
+
+CHECKS_FUNCS = ["check_data_names", "check_extra_coords_names"]
+CHECKS_THEOREMS = ["src_check_data_names_eq", "src_check_extra_coords_names_eq"]
+CHECKS_IMPORTS = "From Verde Require Import Model.Checks Proofs.PyLiteBridge."
+
+
+def checks_obligations():
+    """verde/base/utils.py argument checks against Model/Checks.v (property C20); to hook it:
+    `obligations = pylite_tie.checks_obligations` in harness/c20.py"""
+    return tie("ChecksSrc", os.path.join("verde", "base", "utils.py"), CHECKS_FUNCS, "pylite_checks.v.tmpl",
+               CHECKS_THEOREMS, CHECKS_IMPORTS)
